@@ -19,7 +19,8 @@ impl DateTime {
             .invalid_err("Unable to find XML tag 'dateTimeValue' with type 'Float'")?;
         let gps_time_text = crate::xml::text_of(&gps_time_text);
         let gps_time = if let Some(text) = gps_time_text {
-            text.parse::<f64>()
+            text.trim()
+                .parse::<f64>()
                 .invalid_err("Failed to parse inner text of XML tag 'dateTimeValue' as double")?
         } else {
             return Ok(None);
